@@ -15,9 +15,11 @@ from props import c01
 ID = "C06"
 RULE = ("include graphs over <= 8 files (quick: all graphs on <= 3 files exhaustively; thorough: <= 4) placed in nested / parent / "
         "sibling directories, with shared nodes (diamonds), cycles, self-includes, dangling edges, equal file names in different "
-        "directories, native and JSON syntax mixed, overlapping nested content (kind-consistent), self-referring placeholder "
-        "entries; compared: model readFile (parse + mergeIncludes) vs DictReader.read (data, tables, counter); oracle: result "
-        "equals the first-wins fold of the include closure in depth-first preorder with cycle edges cut; includes=False merges "
+        "directories, absolute and relative include names, a directive as the last line without line ending, native and JSON "
+        "syntax mixed, overlapping nested content (30% of the graphs with keys that are a dict in one file and a leaf in "
+        "another), self-referring placeholder entries; compared: model readFile (parse + mergeIncludes) vs DictReader.read (data, "
+        "tables, counter); oracle: result equals R(root), R(f) = body(f) (+) (R(i1) (+) R(i2) ...) over the live includes with "
+        "cycle edges cut, (+) = first-wins merge (for kind-consistent content = the fold over the depth-first preorder); includes=False merges "
         "nothing and returns no include entry; non-trivial = graph with >= 2 reachable files")
 ASSUMPTIONS = ["Path.resolve() on a scratch tree without symlinks = lexical normalisation",
                "JSON text <-> value is json.loads/json.dumps"]
@@ -28,9 +30,15 @@ LEAFKEYS = ["a", "b", "c", "d", "e"]
 DICTKEYS = ["n", "m"]
 
 
-def gen_body(rng, tag: str) -> dict:
-    """kind-consistent bodies: LEAFKEYS are always leaves, DICTKEYS always dicts (one more level: p,q leaves, r dict)"""
+def gen_body(rng, tag: str, mixed: bool = False) -> dict:
+    """bodies: LEAFKEYS are leaves, DICTKEYS dicts (one more level: p,q leaves, r dict); with `mixed` a key may be a dict in
+    one file and a leaf in another ("arbitrary overlapping nested content")"""
     d = {}
+    if mixed:
+        for k in rng.sample(LEAFKEYS + DICTKEYS, rng.randint(1, 4)):
+            d[k] = rng.choice([f"{tag}_{k}", rng.randint(0, 99), {"p": f"{tag}.{k}.p"}, {"q": f"{tag}.{k}.q", "r": {"z": tag}}, {"r": 5}, {}])
+        d[f"only_{tag}"] = tag
+        return d
     for k in rng.sample(LEAFKEYS, rng.randint(0, 4)):
         d[k] = rng.choice([f"{tag}_{k}", rng.randint(0, 99), f"{tag} {k}", True, None, 1.5])
     for k in rng.sample(DICTKEYS, rng.randint(0, 2)):
@@ -81,6 +89,7 @@ def render_json(body: dict, includes: list[str]) -> str:
 
 
 def gen_graph_case(rng, nfiles: int, edges=None, syntaxes=None) -> dict:
+    mixed = rng.random() < 0.3
     names = []
     for i in range(nfiles):
         d = rng.choice(DIRS) if i else ""
@@ -102,7 +111,7 @@ def gen_graph_case(rng, nfiles: int, edges=None, syntaxes=None) -> dict:
     files = {}
     bodies = {}
     for i, nm in enumerate(names):
-        body = gen_body(rng, f"F{i}")
+        body = gen_body(rng, f"F{i}", mixed)
         incs = []
         for (a, b) in edges:
             if a == i:
@@ -125,22 +134,27 @@ def gen_graph_case(rng, nfiles: int, edges=None, syntaxes=None) -> dict:
 
 
 def reference(case: dict):
-    """first-wins fold of the include closure in depth-first preorder, cycle edges cut"""
+    """the including file wins over what it includes, an earlier include over a later one, recursively:
+    R(f) = body(f) (+) (R(i1) (+) R(i2) (+) ...) over its live includes in order, (+) = first-wins merge; cycle edges cut.
+    The grouping matters only when a key is a dict in one file and a leaf in another (first-wins merge is not associative
+    across a change of kind, `mergeD_assoc_needs_kinds`); the property text does not fix it, the grouping here is the one
+    under which both of its clauses hold literally (includes are ranked among themselves, then against the including file).
+    (For kind-consistent content this equals the first-wins fold over the depth-first preorder of the closure; when a key
+    is a dict in one file and a leaf in another only the hierarchical reading is what "the including file wins" says:
+    `Props/C06fold.lean` proves both facts for the model.)"""
     bodies = case["bodies"]
     order = []
 
     def visit(nm, ancestors):
         order.append(nm)
+        incs: dict = {}
         for inc in bodies[nm]["includes"]:
             target = posixpath.normpath(inc[len(ABS) + 1:] if inc.startswith(ABS + "/") else posixpath.join(posixpath.dirname(nm), inc))
             if target in ancestors or target not in bodies:
                 continue
-            visit(target, ancestors + [target])
-    visit(case["root"], [])      # the root itself is not on the chain (the implementation starts with an empty chain)
-    result: dict = {}
-    for nm in order:
-        result = merge_fw_selfref(result, bodies[nm]["body"], top=True)
-    return result, order
+            incs = merge_fw_selfref(incs, visit(target, ancestors + [target]), top=True)     # an earlier include wins over a later one
+        return merge_fw_selfref(dict(bodies[nm]["body"]), incs, top=True)                  # the including file wins over its includes
+    return visit(case["root"], []), order      # the root itself is not on the chain (the implementation starts with an empty chain)
 
 
 def merge_fw_selfref(a: dict, b: dict, top: bool) -> dict:
